@@ -46,6 +46,10 @@ def cases(tier, seed, phase):
     for ws in (['ok', 'ok'], ['ok', 'qe'], ['qe552'], ['ok', 'exc']):
         yield {'edge': 'wsgi-loopback', 'kind': 'queue', 'writes': ws, 'slow': None}
     yield {'edge': 'wsgi-loopback', 'kind': 'proxy', 'relay': 'map:ok.550', 'n': 2}
+    for j in range(30 if tier == 'quick' else 600):
+        rng = rng_for(seed, 'c02c', j)
+        yield {'kind': 'concurrent', 'edge': 'smtp', 'nclients': rng.choice([2, 2, 3]), 'ndomains': rng.choice([1, 2, 3]),
+               'chain': rng.choice([['Y', 'D'], ['D', 'Y'], ['Y'], ['Y', 'D', 'Y']]), 'delays': [rng.choice([0, 0.002, 0.005, 0.01]) for _ in range(12)]}
 
 
 def make_queue(case, state):
@@ -272,7 +276,90 @@ def snapshot_store(state):
     return sorted(tuple(env.recipients) for env in st.env_db.values())
 
 
+def run_concurrent(case, model):
+    """Several SMTP deliveries in flight at the same edge and Queue at once; a queue policy and the storage writes yield (as a content
+    scanner and a networked store do). Every message answered 2xx must be in storage: each of its recipients once, with its own sender."""
+    import gevent
+    from gevent import socket
+    from slimta.edge.smtp import SmtpEdge
+    from slimta.queue import Queue
+    from slimta.queue.dict import DictStorage
+    from slimta.policy import QueuePolicy
+    from slimta.policy.split import RecipientDomainSplit
+    try:
+        gevent.get_hub().exception_stream = None
+    except Exception:
+        pass
+    delays = list(case['delays'])
+
+    class Scanner(QueuePolicy):
+        def apply(self, envelope):
+            gevent.sleep(delays.pop(0) if delays else 0)
+
+    class Store(DictStorage):
+        def write(self, envelope, timestamp):
+            gevent.sleep(0.001)
+            return DictStorage.write(self, envelope, timestamp)
+    store = Store()
+    q = Queue(store, relay=None)
+    for t in case['chain']:
+        q.add_policy(Scanner() if t == 'Y' else RecipientDomainSplit())
+    edge = SmtpEdge(None, q, hostname='edge.example')
+    codes = {}
+
+    def client(k):
+        a, b = socket.socketpair()
+        g = gevent.spawn(edge.handle, b, ('127.0.0.1', 40000 + k))
+        f = a.makefile('rb')
+
+        def rr():
+            while True:
+                l = f.readline()
+                if not l:
+                    return None
+                if l.strip() and l[3:4] != b'-':
+                    return int(l[:3])
+        try:
+            with gevent.Timeout(5):
+                rr()
+                a.sendall(b'EHLO c%d.example\r\n' % k); rr()
+                a.sendall(b'MAIL FROM:<s%d@example.com>\r\n' % k); rr()
+                for d in range(case['ndomains']):
+                    a.sendall(b'RCPT TO:<m%d.r%d@dom%d.example>\r\n' % (k, d, d)); rr()
+                a.sendall(b'DATA\r\n'); rr()
+                a.sendall(b'Subject: message %d\r\n\r\nbody %d\r\n.\r\n' % (k, k))
+                codes[k] = rr()
+                a.sendall(b'QUIT\r\n')
+        except gevent.Timeout:
+            codes[k] = 'timeout'
+        finally:
+            a.close()
+            g.kill(block=False)
+    gs = [gevent.spawn(client, k) for k in range(case['nclients'])]
+    gevent.joinall(gs, timeout=8)
+    hits = []
+    stored = [(env.sender, tuple(env.recipients), env.flatten()[1]) for env in store.env_db.values()]
+    for k in range(case['nclients']):
+        if codes.get(k) != 250:
+            hits.append(hit('c02.concurrent-delivery-not-accepted', 'one of several simultaneous deliveries was not accepted although nothing failed', observed=codes.get(k)))
+            break
+        for d in range(case['ndomains']):
+            r = 'm%d.r%d@dom%d.example' % (k, d, d)
+            mine = [x for x in stored if r in x[1]]
+            if len(mine) != 1 or mine[0][0] != 's%d@example.com' % k or mine[0][2] != b'body %d\r\n' % k:
+                hits.append(hit('c02.ack-without-custody.smtp.concurrent', 'with several deliveries in flight at once a message was answered 250 although a '
+                                'recipient of it is not in storage exactly once with its own sender and content',
+                                observed={'recipient': r, 'stored': [(x[0], x[1]) for x in mine], 'all': len(stored)}))
+                break
+        if hits:
+            break
+    key = ('concurrent', case['nclients'], case['ndomains'], tuple(case['chain']), tuple(case['delays']))
+    return CaseResult(None, hits, key, ['concurrent-deliveries'])
+
+
 def run_case(case, model):
+    if case.get('kind') == 'concurrent':
+        return run_concurrent(case, model)
     import gevent
     try:
         gevent.get_hub().exception_stream = None
